@@ -76,6 +76,8 @@ class _RecMixin:
 
     def _do(self, x, args, kwargs):
         self.trace.append((self.sname, x, args, dict(kwargs)))
+        if getattr(self, "dur", 0):
+            schedsim.advance(self.dur)  # this stage takes that long on the simulation's clock
         if self.delay:
             time.sleep(self.delay)  # only used in the real-thread fallback (DESIGN §3.6)
         if self.fail:
@@ -188,6 +190,8 @@ def gen_case(run_seed: int, index: int, tier: str) -> dict:
         case["aggregator"] = rng.random() < 0.6
         case["ctor"] = rng.choice(["steps", "add", "add", "branches"])
         case["fail"] = [nm for nm in names if rng.random() < 0.08] if rng.random() < 0.3 else []
+        # how long each branch takes on the simulation's clock (seconds); nothing in the property may depend on it
+        case["durations"] = {nm: rng.choice([0, 0.004, 0.02, 0.05, 0.3, 1.5]) for nm in names} if rng.random() < 0.5 else {}
         extra = n
         for _ in range(rng.choice([0, 0, 0, 1, 2, 4])):
             if rng.random() < 0.5:
@@ -258,6 +262,7 @@ def gen_case(run_seed: int, index: int, tier: str) -> dict:
             call["truth"] = {f"c{i}": (rng.random() < rng.choice([0.15, 0.5, 0.85])) for i in range(nb + 1)}
             call["as_tensor"] = {f"c{i}": rng.random() < 0.4 for i in range(nb + 1)}
             call["return_branch"] = rng.random() < 0.5
+            call["guarded"] = rng.random() < 0.3  # conditions form an if/elif chain: later ones are invalid for inputs an earlier one claims
             case["ops"].append(["forward", call])
     elif kind == "feedback":
         case["max_iterations"] = rng.choice([0, 1, 1, 2, 3, 4, 5, 5, 6, 8, 12])
@@ -427,9 +432,13 @@ def run_parallel(ctx: Ctx):
 
     plain = set(case.get("plain", []))
 
+    durations = case.get("durations") or {}
+
     def mk(name, rank=0):
         cls = RecCallable if name in plain else RecModel
-        return cls(name, tr, fail=name in fail, delay=(0.002 * rank if fallback else 0.0))
+        obj = cls(name, tr, fail=name in fail, delay=(0.002 * rank if fallback else 0.0))
+        obj.dur = durations.get(name, 0)
+        return obj
 
     names = list(case["branches"])
     ranks = {nm: r for r, nm in enumerate(case.get("fallback_order", names))}
@@ -493,6 +502,11 @@ def run_parallel(ctx: Ctx):
                 ctx.res.faults["sched.finish_out_of_submission_order"] += 1
             if any(nm in fail for nm in names):
                 ctx.res.faults["branch.raise"] += 1
+            if sim.now > 0:
+                ctx.res.faults["clock.branches_with_unequal_durations"] += 1 if len(set(durations.get(nm, 0) for nm in names)) > 1 else 0
+                ctx.res.probes["virtual_seconds_x1000"] += int(sim.now * 1000)
+            if sim.clock_reads:
+                ctx.res.probes["clock.reads_by_code_under_test"] += sim.clock_reads
             if sim.timeouts_fired:
                 ctx.res.faults["sched.timeout_fired"] += sim.timeouts_fired
             sched_canon = [e[1:] for e in ctx.log.events if e[1].startswith("sched.")]
@@ -643,13 +657,22 @@ def run_branching(ctx: Ctx):
     truth_now = {}
     as_tensor_now = {}
 
+    guarded_now = [False]
+    order = []  # registration order (list model)
+
     def mk_cond(name):
         def cond(x):
+            if guarded_now[0]:
+                # an if/elif guard chain: this condition is only valid for inputs that no earlier branch claims
+                for other in order:
+                    if other == name:
+                        break
+                    if truth_now.get(other, False):
+                        raise IndexError(f"condition {name} evaluated on an input that the earlier branch {other} claims")
             v = truth_now.get(name, False)
             return torch.tensor(v) if as_tensor_now.get(name) else v
         return cond
 
-    order = []  # registration order (list model)
     removed = []
     default = None
     if case.get("binary_ctor"):
@@ -696,6 +719,9 @@ def run_branching(ctx: Ctx):
                 truth_now["true_branch"] = call["truth"].get("c0", False)
             as_tensor_now.clear()
             as_tensor_now.update(call["as_tensor"])
+            guarded_now[0] = bool(call.get("guarded"))
+            if guarded_now[0]:
+                ctx.res.probes["branching.guard_chain_conditions"] += 1
             x0 = ("in", call["input"])
             expect = next((nm for nm in order if truth_now.get(nm, False)), None)
             expect_name = expect
@@ -706,7 +732,7 @@ def run_branching(ctx: Ctx):
             out = None
             try:
                 out = model(x0, return_branch=call["return_branch"], **call["kwargs"])
-            except RuntimeError as e:
+            except (RuntimeError, IndexError) as e:
                 err = e
             trace = ctx.take_trace()
             ctx.log.add("op.forward", {"in": x0, "out": out if err is None else "raised", "expect": expect})
